@@ -229,7 +229,10 @@ func Concretize(e *Edge, n int) Concrete {
 			line("BDAT")
 		case "badsize":
 			// not 1*DIGIT: must be refused, never framed with a guessed length
-			line("BDAT " + []string{"abc", "0x6", "+6", "-6", "6.0", "1_0", "4294967296", "0b11", "0o6"}[n%9])
+			// (nor a size no chunk can have: the widths an implementation may parse it with)
+			vs := []string{"abc", "0x6", "+6", "-6", "6.0", "1_0", "4294967296", "0b11", "0o6",
+				"9223372036854775808", "9223372036854775808 LAST", "18446744073709551615 LAST", "18446744073709551616", "4294967296 LAST", "99999999999999999999 LAST"}
+			line("BDAT " + vs[n%len(vs)])
 		case "3args":
 			if c.L {
 				k.Phases = append(k.Phases, []byte(fmt.Sprintf("BDAT %d LAST X\r\n%s", c.N, payload)))
@@ -653,6 +656,29 @@ func (cv *Conv) Exec(e *Edge) (divs []evid.Div, fatal error) {
 		}
 		divs = append(divs, evid.Div{Prop: prop, Key: fmt.Sprintf("replies:%s:%s", e.Lbl.Cmd.String(), srcClass(e)),
 			Msg: fmt.Sprintf("%s: expected replies %v, got %v", ctx, exp, st.Replies), Replay: rp()})
+		if cc := e.Lbl.Cmd.C; prop != "C07" && (strings.HasPrefix(cc, "BDAT") || strings.HasPrefix(cc, "DATA")) {
+			// a positive reply where the specification has none: something was
+			// reported as received that did not arrive
+			pos := func(codes []int) bool {
+				for _, c := range codes {
+					if c == 250 {
+						return true
+					}
+				}
+				return false
+			}
+			var gc, ec []int
+			for _, r := range rs {
+				gc = append(gc, r.Code)
+			}
+			for _, r := range exp {
+				ec = append(ec, r.Code)
+			}
+			if pos(gc) && !pos(ec) {
+				divs = append(divs, evid.Div{Prop: "C07", Key: fmt.Sprintf("positive-unexpected:%s:%s", e.Lbl.Cmd.String(), srcClass(e)),
+					Msg: fmt.Sprintf("%s: a positive reply where the specification has none: expected %v, got %v", ctx, exp, st.Replies), Replay: rp()})
+			}
+		}
 	} else {
 		for i, r := range rs {
 			exempt := r.Code == 250 && (e.Lbl.Cmd.C == "EHLO" || e.Lbl.Cmd.C == "LHLO")
